@@ -22,10 +22,11 @@ class FaultPlan:
     """kind in {None, 'status', 'connect', 'drop'}; applies to the requests for which match(request) is true, starting at the
     `skip`-th such request, for `count` consecutive ones."""
 
-    def __init__(self, kind=None, status=503, match=None, skip=0, count=0, headers=None, drop_after=1):
+    def __init__(self, kind=None, status=503, match=None, skip=0, count=0, headers=None, drop_after=1, body_pieces=10 ** 6):
         self.kind, self.status, self.match, self.skip, self.left = kind, status, match or (lambda r: True), skip, count
         self.headers = headers or {}
         self.drop_after = drop_after
+        self.body_pieces = body_pieces      # how many pieces of a request body the service reads before the fault strikes
         self.hits = 0
         self.seen = 0
 
@@ -38,6 +39,29 @@ class FaultPlan:
         self.left -= 1
         self.hits += 1
         return self.kind
+
+
+class PieceTransport(httpx.AsyncBaseTransport):
+    """Unlike httpx.MockTransport (which drains the request body before the handler runs) this transport consumes the
+    body piece by piece, so a fault can strike after j pieces of an upload: the client's payload stream is then really left
+    in the middle."""
+
+    def __init__(self, svc):
+        self.svc = svc
+
+    async def handle_async_request(self, request):
+        plan = self.svc.plan
+        cut = plan.body_pieces if (plan.kind in ('status', 'connect') and plan.left > 0 and plan.match(request) and plan.seen >= plan.skip) else None
+        body, n = b'', 0
+        async for piece in request.stream:
+            if cut is not None and n >= cut:
+                break
+            body += piece
+            n += 1
+        cl = request.headers.get('content-length')
+        if cut is None and cl is not None and int(cl) != len(body):
+            self.svc.short_bodies.append((request.method, len(body), int(cl)))
+        return await self.svc.handle(request, body)
 
 
 class _DropStream(httpx.AsyncByteStream):
@@ -61,12 +85,12 @@ class FakeS3:
         self.objs = {}
         self.requests = []
         self.max_requests = 120
+        self.short_bodies = []
 
     def transport(self):
-        return httpx.MockTransport(self.handle)
+        return PieceTransport(self)
 
-    async def handle(self, request: httpx.Request):
-        body = await request.aread()
+    async def handle(self, request: httpx.Request, body: bytes):
         self.requests.append((request.method, request.url.raw_path.decode()))
         if len(self.requests) > self.max_requests:
             raise RequestStorm()
@@ -127,17 +151,18 @@ class FakeB2:
         self.hidden = set()
         self.requests = []
         self.max_requests = 120
+        self.short_bodies = []
         self.token_n = 0
-        self.expire_next = 0         # number of upcoming API/download requests answered with 401 (expired token)
+        self.expire_next = 0         # number of upcoming requests answered with 401 (expired token)
+        self.expire_uploads = True   # ... including requests to the upload URL (upload tokens expire too)
 
     def transport(self):
-        return httpx.MockTransport(self.handle)
+        return PieceTransport(self)
 
     def _json(self, status, obj):
         return httpx.Response(status, json=obj)
 
-    async def handle(self, request: httpx.Request):
-        body = await request.aread()
+    async def handle(self, request: httpx.Request, body: bytes):
         url = str(request.url)
         self.requests.append((request.method, url))
         if len(self.requests) > self.max_requests:
@@ -151,9 +176,9 @@ class FakeB2:
             return httpx.Response(self.plan.status, headers=self.plan.headers, json={'code': 'injected', 'status': self.plan.status})
         if k == 'connect':
             raise httpx.ConnectError('injected connection failure')
-        if self.expire_next > 0 and not url.startswith(self.UP):
+        if self.expire_next > 0 and (self.expire_uploads or not url.startswith(self.UP)):
             self.expire_next -= 1
-            return self._json(401, {'code': 'expired_auth_token'})
+            return self._json(401, {'code': 'expired_auth_token'})     # (the body of an upload has been consumed by now)
         if not url.startswith(self.UP) and request.headers.get('authorization') != f'tok{self.token_n}':
             return self._json(401, {'code': 'bad_auth_token'})
         if url.endswith('/b2_list_buckets'):
